@@ -10,8 +10,9 @@ use std::sync::Arc;
 // ---------------------------------------------------------------------------
 // Seeds
 
-pub const SEED_CLASSES: [&str; 9] = [
+pub const SEED_CLASSES: [&str; 11] = [
     "uniform", "sparse", "dense", "single_byte", "word_patterns", "small_ints", "repeated_byte", "high_bits", "algebraic",
+    "zero_region", "masked_words",
 ];
 
 /// A seed of `len` bytes of the class chosen by `p`; never all-zero unless
@@ -65,6 +66,29 @@ pub fn gen_seed(p: &mut Prng, len: usize, word_bytes: usize, allow_zero: bool) -
             6 => {
                 let b = p.below(256) as u8;
                 s.iter_mut().for_each(|x| *x = b);
+            }
+            9 => {
+                // a zero prefix or suffix of 4, 8, 16, 32 … bytes, the rest random
+                // (zero tests done machine word by machine word see only a part)
+                p.fill(&mut s);
+                let mut k = 4usize << p.below(5);
+                while k >= len { k /= 2; }
+                let k = k.max(1);
+                if p.chance(1, 2) { s[..k].iter_mut().for_each(|b| *b = 0); } else { s[len - k..].iter_mut().for_each(|b| *b = 0); }
+            }
+            10 => {
+                // the same mask on every word: low half / high half / one byte lane zero
+                p.fill(&mut s);
+                let lanes: &[usize] = match p.below(5) {
+                    0 => &[0, 1, 2, 3],          // low 32 bits of a 64-bit word (all of a 32-bit word)
+                    1 => &[4, 5, 6, 7],
+                    2 => &[0],
+                    3 => &[7, 3],
+                    _ => &[0, 2, 4, 6],
+                };
+                for w in s.chunks_mut(word_bytes.max(8).min(len)) {
+                    for &l in lanes { if l < w.len() { w[l] = 0; } }
+                }
             }
             8 => {
                 // words related to each other: equal, negated, complemented, xor-to-zero, zero
